@@ -1082,6 +1082,65 @@ def accept_configures_limit(srv):
     return 1 if re.search(r"ClientConnection::new\(\s*" + m.group(1) + r"\s*\)", body) else None
 
 
+def struct_fields(src, name):
+    """the field names of `struct <name>[<..>] { … }`, in order (None if there is no such struct)"""
+    m = re.search(r"\bstruct\s+" + re.escape(name) + r"\s*(?:<[^{;]*?>)?\s*\{", src)
+    if not m:
+        return None
+    blk = block_after(src, m.start())
+    if blk is None:
+        return None
+    out = []
+    parts, depth, cur = [], 0, ""
+    for ch in blk.strip()[1:-1]:
+        if ch in "([{<":
+            depth += 1
+        elif ch in ")]}>":
+            depth -= 1
+        if ch == "," and depth == 0:
+            parts.append(cur)
+            cur = ""
+        else:
+            cur += ch
+    parts.append(cur)
+    for part in parts:
+        part = re.sub(r"#\[[^\]]*\]", "", part).strip()
+        if not part:
+            continue
+        fm = re.match(r"(?:pub(?:\([^)]*\))?\s+)?(\w+)\s*:", part)
+        if not fm:
+            return None
+        out.append(fm.group(1))
+    return out
+
+
+def reset_block(conn):
+    """the assignments `try_read` makes after a ParseError, as (field, what) pairs in source order"""
+    body = fn_body(conn, "HttpConnection<T>", "try_read")
+    if body is None:
+        return None
+    m = re.search(r"if\s+let\s+Err\(\s*ConnectionError::ParseError\(\s*_\s*\)\s*\)\s*=\s*(\w+)\s*\{", body)
+    if not m:
+        return None
+    blk = block_after(body, m.start())
+    if blk is None:
+        return None
+    out = []
+    for st in split_stmts(blk.strip()[1:-1]):
+        st = st.strip()
+        if not st:
+            continue
+        a = re.fullmatch(r"self\.(\w+)\s*=\s*(.+?);", st, flags=re.S)
+        c = re.fullmatch(r"self\.(\w+)\.clear\(\)\s*;", st)
+        if a:
+            out.append((a.group(1), re.sub(r"\s+", "", a.group(2))))
+        elif c:
+            out.append((c.group(1), "clear"))
+        else:
+            return None
+    return out
+
+
 def interior_mutability(srcs):
     """types with interior mutability mentioned anywhere in the non-test source: the model takes every `&self` method
     (write_all, the getters, handle_http_request, …) to be a function of the value it is called on"""
@@ -1188,6 +1247,22 @@ def main():
     shared = shared_state([("connection.rs", conn), ("server.rs", srv), ("common/mod.rs", common), ("common/headers.rs", headers),
                            ("response.rs", resp), ("request.rs", req), ("router.rs", router), ("common/ascii.rs", ascii_), ("lib.rs", librs)])
     items.append(("sharedState", "List String", "[" + ", ".join(lean_str(x) for x in shared) + "]"))
+    def strs(name, v):
+        items.append((name, "List String", None if v is None else "[" + ", ".join(lean_str(x) for x in v) + "]"))
+
+    strs("fieldsHttpConnection", struct_fields(conn, "HttpConnection"))
+    strs("fieldsClientConnection", struct_fields(srv, "ClientConnection"))
+    strs("fieldsHttpServer", struct_fields(srv, "HttpServer"))
+    strs("fieldsResponse", struct_fields(resp, "Response"))
+    strs("fieldsResponseHeaders", struct_fields(resp, "ResponseHeaders"))
+    strs("fieldsStatusLine", struct_fields(resp, "StatusLine"))
+    strs("fieldsHttpRoutes", struct_fields(router, "HttpRoutes"))
+    strs("fieldsHeaders", struct_fields(headers, "Headers"))
+    strs("fieldsRequest", struct_fields(req, "Request"))
+    strs("fieldsRequestLine", struct_fields(req, "RequestLine"))
+    strs("fieldsUri", struct_fields(req, "Uri"))
+    rb_ = reset_block(conn)
+    items.append(("resetAfterParseError", "List (String × String)", None if rb_ is None else "[" + ", ".join(f"({lean_str(a)}, {lean_str(b)})" for a, b in rb_) + "]"))
     interior = interior_mutability([("connection.rs", conn), ("server.rs", srv), ("common/mod.rs", common), ("common/headers.rs", headers),
                                     ("response.rs", resp), ("request.rs", req), ("router.rs", router), ("common/ascii.rs", ascii_), ("lib.rs", librs)])
     items.append(("interiorMutability", "List String", "[" + ", ".join(lean_str(x) for x in interior) + "]"))
